@@ -225,6 +225,10 @@ func (m *coreMon) check(op string, res string, cur *coreSnap) {
 			if uint64(len(r.States)) != uint64(len(pr.States))+1 && kv["last"] != "1" {
 				m.violate("C01/accept/not-appended", fmt.Sprintf("r%d %d -> %d states", ri, len(pr.States), len(r.States)))
 			}
+			if kv["last"] == "1" && pr.Succ < 0 && len(r.Revs) != len(pr.Revs)+1 {
+				// a last update with no successor hands over to the sentinel = a hard fork to the latest height
+				m.violate("C01/revision/rotation-to-sentinel-without-revision-bump", fmt.Sprintf("r%d revisions %v -> %v", ri, pr.Revs, r.Revs))
+			}
 			if kv["last"] == "1" {
 				q := prev.Seqs[by]
 				if q.Notice < 0 || q.Notice > prev.T {
@@ -399,6 +403,12 @@ func (m *coreMon) check(op string, res string, cur *coreSnap) {
 				blocked := pr.Prop == i || pr.Succ == i
 				for _, sh := range prev.SeqH {
 					if int(sh[0]) == i {
+						blocked = true
+					}
+				}
+				// independent of the liability index: any not yet finalized state posted by this sequencer
+				for _, st := range pr.States {
+					if st.Creator == i && !st.Final {
 						blocked = true
 					}
 				}
